@@ -206,3 +206,32 @@ pub fn creator_cache(req: &Value) -> Result<Value, String> {
     let second = ruma_state_res::verif_sender_power_levels(&[<&EventId>::try_from("$a:x").unwrap(), &*b.event_id], &rules.authorization, fetch);
     Ok(json!({"r": "ok", "empty_cache": show(&first[0]), "filled_cache": show(&second[1])}))
 }
+
+
+/// C07: mainline ordering of three events over the fixed power-level history p0 <- p1 <- p2 (resolved), q <- p0
+pub fn mainline(req: &Value) -> Result<Value, String> {
+    let mk = |id: &str, ty: &str, auth: Vec<&str>, ts: u64| -> Result<Pdu, String> {
+        pdu(&json!({"event_id": id, "type": ty, "sender": "@a:x", "state_key": "", "content": {}, "auth_events": auth, "origin_server_ts": ts}))
+    };
+    let mut by_id: HashMap<String, Pdu> = HashMap::new();
+    by_id.insert("$p0:x".into(), mk("$p0:x", "m.room.power_levels", vec![], 1)?);
+    by_id.insert("$p1:x".into(), mk("$p1:x", "m.room.power_levels", vec!["$p0:x"], 2)?);
+    by_id.insert("$p2:x".into(), mk("$p2:x", "m.room.power_levels", vec!["$p1:x"], 3)?);
+    by_id.insert("$q:x".into(), mk("$q:x", "m.room.power_levels", vec!["$p0:x"], 4)?);
+    let mut to_sort: Vec<OwnedEventId> = vec![];
+    for e in req["events"].as_array().cloned().unwrap_or_default() {
+        let id = e["id"].as_str().unwrap_or("").to_owned();
+        let auth: Vec<&str> = e["parent"].as_str().into_iter().collect();
+        by_id.insert(id.clone(), mk(&id, "m.room.topic", auth, e["ts"].as_u64().unwrap_or(0))?);
+        to_sort.push(<&EventId>::try_from(id.as_str()).map_err(|e| e.to_string())?.to_owned());
+    }
+    let resolved = <&EventId>::try_from("$p2:x").unwrap().to_owned();
+    let mut first: Option<Vec<String>> = None;
+    let mut stable = true;
+    for _ in 0..req["repeat"].as_u64().unwrap_or(8) {
+        let r = ruma_state_res::verif_mainline_sort(&to_sort, Some(resolved.clone()), |id: &EventId| by_id.get(id.as_str()).cloned());
+        let order: Vec<String> = match r { Ok(v) => v.iter().map(|x| x.as_str().to_owned()).collect(), Err(e) => return Ok(json!({"r": "err", "e": e.to_string()})) };
+        match &first { None => first = Some(order), Some(f) => if *f != order { stable = false; } }
+    }
+    Ok(json!({"r": "ok", "order": first, "stable": stable}))
+}
